@@ -37,6 +37,33 @@ def gen_plan(ch: Chooser, tier: str) -> dict[str, Any]:
             'id': 'dmx', 'kind': 'daemon',
             'opts': {'cancellation_backoff': ch.choice([0.3, 1.0]), 'cancellation_timeout': ch.choice([0.5, 2.0])},
             'daemon': ch.choice([{'mode': 'obey', 'exit_delay': 0.5}, {'mode': 'cancel'}, {'mode': 'ignore', 'hold': 1.0}])})
+    if ch.bool(0.15):
+        # targeted history: a resuming cycle of several steps (one resume handler done, another retrying) is superseded
+        # by an edit or a deletion in the middle -- the records of the handlers still selected must survive the supersession
+        hs = plan['operators'][0]['handlers']
+        hs[:] = [h for h in hs if h['kind'] != 'resume']
+        hs.append({'id': 'r1', 'kind': 'resume', 'opts': {'deleted': True} if ch.bool(0.5) else {},
+                   'script': [ch.choice([{'do': 'ok', 'dur': 0.0}, {'do': 'perm', 'dur': 0.0}, {'do': 'ok', 'dur': 0.3}])]})
+        hs.append({'id': 'r2', 'kind': 'resume', 'opts': {'deleted': True} if ch.bool(0.5) else {},
+                   'script': [{'do': 'temp', 'dur': 0.0, 'delay': ch.choice([1.0, 2.0])}] * ch.int(1, 2) + [{'do': 'ok', 'dur': 0.0}]})
+        if ch.bool(0.5):
+            hs.append({'id': 'r3', 'kind': 'resume', 'opts': {}, 'script': [{'do': 'ok', 'dur': ch.choice([0.0, 0.2])}]})
+        plan['operators'][0]['lifecycle'] = ch.choice([None, 'asap', 'one_by_one', 'all_at_once'])
+        names = sorted({o['body']['metadata']['name'] for o in plan['objects']} |
+                       {a_['body']['metadata']['name'] for a_ in plan['actions'] if a_['do'] == 'create'})
+        t_r = round(ch.float(plan.get('horizon', 30.0) * 0.5, plan.get('horizon', 30.0)), 6)
+        plan['actions'] = [a_ for a_ in plan['actions'] if a_['t'] < t_r or a_['do'] not in ('kill', 'stop', 'cancel', 'start')]
+        plan['actions'].append({'t': t_r, 'do': ch.choice(['stop', 'kill']), 'op': 'op1'})
+        plan['actions'].append({'t': round(t_r + 3.0, 6), 'do': 'start', 'op': 'op1'})
+        for name in names:
+            t_e = round(t_r + 3.0 + ch.choice([0.3, 0.8, 1.5, 2.5]), 6)
+            if ch.bool(0.75):
+                plan['actions'].append({'t': t_e, 'do': 'patch', 'name': name, 'patch': {'spec': {'late': ch.int(1, 99)}}})
+            else:
+                plan['actions'].append({'t': t_e, 'do': 'delete', 'name': name})
+        plan['actions'].sort(key=lambda a_: a_['t'])
+        plan['until'] = max(plan.get('until', 0.0), t_r + 60.0)
+        plan['tier_kind'] = 'fault'
     return plan
 
 
